@@ -17,9 +17,10 @@ type recCommit struct {
 
 // recLogger is a commit.Logger that records every commit it is handed.
 type recLogger struct {
-	mu      sync.Mutex
-	commits []recCommit
-	who     func() int // optional: identifies the running task
+	mu       sync.Mutex
+	commits  []recCommit
+	who      func() int // optional: identifies the running task
+	onAppend func()     // optional: called (under the block latch) for every commit
 }
 
 func (l *recLogger) Append(c commit.Commit) error {
@@ -28,6 +29,9 @@ func (l *recLogger) Append(c commit.Commit) error {
 		task = l.who()
 	}
 	cl := c.Clone()
+	if l.onAppend != nil {
+		l.onAppend()
+	}
 	l.mu.Lock()
 	l.commits = append(l.commits, recCommit{ID: c.ID, Chunk: c.Chunk, Clone: cl, Task: task, Seq: len(l.commits)})
 	l.mu.Unlock()
